@@ -12,6 +12,9 @@ from spec import rv32im as S
 
 DATA = 2 ** 14
 STEP_BOUND = 120
+# offsets from the data pointer: a few neighbouring bytes, so that loads and stores of different widths and alignments
+# overlap each other again and again within one run
+OFFS = [0, 0, 0, 1, 2, 3, 4, 4, 5, 6, 7, 8, -4, -1, 12]
 
 
 def gen(rnd):
@@ -25,8 +28,11 @@ def gen(rnd):
     def wr():
         return rnd.choice([1, 2, 4, 5, 10, 17, 0, 1, 2])        # x3 is kept as the data pointer most of the time
     prog = []
+    dense = rnd.random() < 0.5          # memory-dense programs: mostly loads and stores around the data pointer
     for i in range(n):
         k = rnd.random()
+        if dense and k < 0.8:
+            k = 0.52 + 0.24 * rnd.random()
         if k < 0.30:
             mn = rnd.choice(S.R_ALU)
             prog.append(getattr(I, mn.upper())(wr(), r(), r()))
@@ -38,10 +44,10 @@ def gen(rnd):
             prog.append(getattr(I, mn.upper())(wr(), r(), rnd.choice([0, 1, 31, rnd.randint(0, 31)])))
         elif k < 0.64:
             mn = rnd.choice(S.LOADS)
-            prog.append(getattr(I, mn.upper())(wr(), rnd.choice([3, 3, 3, r()]), rnd.choice([0, 1, 2, 3, 4, 6, 8, -4, -8, 12, rnd.randint(-16, 40)])))
+            prog.append(getattr(I, mn.upper())(wr(), rnd.choice([3, 3, 3, 3, 3, r()]), rnd.choice(OFFS + [rnd.randint(-16, 40)])))
         elif k < 0.76:
             mn = rnd.choice(S.STORES)
-            prog.append(getattr(I, mn.upper())(rnd.choice([3, 3, 3, r()]), r(), rnd.choice([0, 1, 2, 3, 4, 6, 8, -4, -8, 12, rnd.randint(-16, 40)])))
+            prog.append(getattr(I, mn.upper())(rnd.choice([3, 3, 3, 3, 3, r()]), r(), rnd.choice(OFFS + [rnd.randint(-16, 40)])))
         elif k < 0.86:
             mn = rnd.choice(S.BRANCHES)
             prog.append(getattr(I, mn.upper())(r(), r(), rnd.choice([8, 12, -4, -8, 4, 16, 4 * (n - i)])))
